@@ -131,12 +131,8 @@ def jobs(tier):
     for f in (("oid", "path") if q else ("oid", "path", "mixed")):
         for side in (0, 1):
             for op in OPS:
-                out.append({"harness": "crash", "params": {"flavour": f, "nops": 1 if q else 2, "maxcrash": 10 if q else 14, "first": [side, op]},
-                            "label": "%s/%d-ops/first=%d:%s" % (f, 1 if q else 2, side, op)})
-    if q:
-        for f in ("oid", "path"):
-            for op in ("create_b", "rename_a_b", "mkdir_d_s"):
-                out.append({"harness": "crash", "params": {"flavour": f, "nops": 2, "maxcrash": 10, "first": [0, op]}, "label": "%s/2-ops/first=0:%s" % (f, op)})
+                out.append({"harness": "crash", "params": {"flavour": f, "nops": 2 if q else 3, "maxcrash": 10 if q else 14, "first": [side, op]},
+                            "label": "%s/%d-ops/first=%d:%s" % (f, 2 if q else 3, side, op)})
     return out
 
 
@@ -147,7 +143,7 @@ def meta(tier):
                        "kind are bounded z3 integers, values past the run's number of writes are pruned. The crash unwinds as a BaseException; a new engine is started over whatever storage "
                        "and provider contents existed at that instant. Oracles after the second quiescence: roots equal (modulo '.conflicted'), no user content lost, no '.conflicted' for "
                        "one-sided histories, the untouched synced file neither duplicated nor changed.",
-        "bounds": {"operations": OPS, "history": "1 operation (+ three 2-operation families); thorough 2", "crash instants": "every storage write and every engine provider write up to the 10th (14th) of the run"},
+        "bounds": {"operations": OPS, "history": "2 operations (thorough 3)", "crash instants": "every storage write and every engine provider write up to the 10th (14th) of the run"},
         "symbolic": ["operations", "crash kind", "crash index"],
         "outside": ["crashes inside a provider or storage call (torn writes)", "SQLite file durability", "crashes during the restarted run"],
         "stubs": ["engine lab determinisation; restart as in C06 (account event logs persist, in-memory cursor position lost)"],
